@@ -135,12 +135,16 @@ type FS struct {
 	ErrKind   error
 	ErrPrefix int
 	ErrFired  int
+	ErrFiredOp int64 // OpCount when the injected error was returned
 
 	// SyncLatency, if set, returns the virtual duration a Sync takes.
 	SyncLatency func() int64
 
 	// Yield makes mutating operations scheduling points.
 	Yield bool
+
+	// The last mutating operation (what a crash trigger interrupted).
+	LastOpKind, LastOpPath string
 
 	tmpSeq uint64
 	// TmpName, if set, supplies the random part of CreateTemp/MkdirTemp names.
@@ -230,6 +234,7 @@ func (f *FS) step(kind, p string, size int) (torn int, err error) {
 		}
 	}
 	f.OpCount++
+	f.LastOpKind, f.LastOpPath = kind, p
 	if f.OnOp != nil {
 		f.OnOp(f, f.OpCount, kind, p, size)
 	}
@@ -255,6 +260,7 @@ func (f *FS) step(kind, p string, size int) (torn int, err error) {
 	}
 	if f.ErrAt != 0 && f.OpCount == f.ErrAt {
 		f.ErrFired++
+		f.ErrFiredOp = f.OpCount
 		return -1, f.ErrKind
 	}
 	return -1, nil
